@@ -366,9 +366,9 @@ func dependsOnLoopPhi(v ssa.Value, l *Loop) bool {
 // classifyAccumulator returns a description when phi is an order-insensitive loop-carried value.
 func classifyAccumulator(p *Prog, fn *ssa.Function, l *Loop, phi *ssa.Phi) string {
 	fi := p.Info(fn)
-	allSame := true   // in-loop edges are phi itself or one constant
+	allSame := true // in-loop edges are phi itself or one constant
 	var cst *Term
-	comm := true      // in-loop edges are phi ⊕ e chains
+	comm := true // in-loop edges are phi ⊕ e chains
 	isAppend := true
 	for i, e := range phi.Edges {
 		pred := phi.Block().Preds[i]
